@@ -631,6 +631,17 @@ class Authorization(Endpoint):
                 "return_type": request["response_type"],
             }
 
+    def _subject_args(self, request):
+        """The subject type and sector identifier registered for the requesting client."""
+        _cinfo = self.upstream_get("context").cdb.get(request["client_id"]) or {}
+        _sector = _cinfo.get("sector_id") or _cinfo.get("sector_identifier_uri")
+        if not _sector:
+            _sector = request.get("redirect_uri", "")
+        return {
+            "sub_type": _cinfo.get("subject_type") or "public",
+            "sector_identifier": urlparse(_sector).hostname or "",
+        }
+
     def create_session(self, request, user_id, acr, time_stamp, authn_method):
         _context = self.upstream_get("context")
         _mngr = _context.session_manager
@@ -650,6 +661,7 @@ class Authorization(Endpoint):
             user_id=user_id,
             client_id=request["client_id"],
             token_usage_rules=_token_usage_rules,
+            **self._subject_args(request),
         )
 
     def _login_required_error(self, redirect_uri, request):
@@ -800,6 +812,7 @@ class Authorization(Endpoint):
                             auth_req=request,
                             user_id=user,
                             client_id=request["client_id"],
+                            **self._subject_args(request),
                         )
 
         if _session_id:
